@@ -14,9 +14,9 @@ import (
 // Shared, reusable rule drivers. Each records one obligation in the report.
 
 const (
-	pkgKin    = "github.com/getkin/kin-openapi/openapi3"
-	pkgV3     = "github.com/pb33f/libopenapi/datamodel/high/v3"
-	pkgHBase  = "github.com/pb33f/libopenapi/datamodel/high/base"
+	pkgKin     = "github.com/getkin/kin-openapi/openapi3"
+	pkgV3      = "github.com/pb33f/libopenapi/datamodel/high/v3"
+	pkgHBase   = "github.com/pb33f/libopenapi/datamodel/high/base"
 	pkgRaymond = "github.com/aymerick/raymond"
 )
 
